@@ -103,6 +103,60 @@ func unitsFor(prop, harness string, p patterns.Pat, options int, copts string, m
 	return us
 }
 
+// limitShapes: patterns that sit on either side of a constant of the compile-time analyses (prefix length 8,
+// 16 prefixes / set characters, loop expansion 20, 50 fixed-distance results), each with the text lengths at
+// which a match is possible. The texts are long but the patterns are rigid, so the number of path classes
+// stays small (it grows with the square of the length, not exponentially).
+var limitShapes = []struct {
+	pat string
+	ns  []int // text lengths (the first one is the quick tier's)
+	dir string // "l": left-to-right configurations only, "r": right-to-left only (a rigid pattern is cheap only
+	// when the scan direction meets its loop first: the failed attempt at p then decides most of p+1)
+	quick bool
+}{
+	{`[ab]{20}c`, []int{21, 22}, "l", true}, {`[ab]{21}c`, []int{23, 22}, "l", true}, {`[ab]{22}cd`, []int{24, 25}, "l", false}, {`\d{21}-`, []int{22, 23}, "l", true}, {`a{21}[bc]d`, []int{23, 24}, "l", true},
+	{`[ab]{19,21}c`, []int{22}, "l", false}, {`[ab]{7}c`, []int{8, 9}, "l", false}, {`[ab]{8}c`, []int{9, 10}, "l", true}, {`[ab]{9}c`, []int{10, 11}, "l", true},
+	{`c[ab]{20}`, []int{21, 22}, "r", false}, {`c[ab]{21}`, []int{23, 22}, "r", true}, {`dc[ab]{22}`, []int{24, 25}, "r", false}, {`-\d{21}`, []int{22, 23}, "r", true}, {`c[ab]{8}`, []int{9, 10}, "r", false},
+	{`abcdefg[ij]`, []int{8, 9}, "lr", false}, {`abcdefgh[ij]`, []int{9, 10}, "l", true}, {`abcdefghi[jk]`, []int{10, 11}, "l", true},
+	{`abcdefgh|abcdefgx`, []int{8, 9}, "l", false}, {`[a-p]{2}x`, []int{3, 4}, "lr", true}, {`[a-q]{2}x`, []int{3, 4}, "lr", true}, {`[a-p]x|[a-q]y`, []int{2, 3}, "lr", true},
+	{`ab|cd|ef|gh|ij|kl|mn|op|qr|st|uv|wx|yz|AB|CD|EF`, []int{2, 3}, "l", true}, {`ab|cd|ef|gh|ij|kl|mn|op|qr|st|uv|wx|yz|AB|CD|EF|GH`, []int{2, 3}, "l", true},
+	{`[ab]{49}c`, []int{50}, "l", false}, {`[ab]{50}c`, []int{51}, "l", false}, {`.{20}[ab]c`, []int{22}, "l", false}, {`.{21}[ab]c`, []int{23}, "l", true}, {`\w{21}\b-`, []int{22, 23}, "l", false},
+}
+
+func limitUnits(tier, prop, harness string, cfgs []struct {
+	o  int
+	co string
+}, needAST bool) []Unit {
+	var us []Unit
+	for _, ls := range limitShapes {
+		if tier != "thorough" && !ls.quick {
+			continue
+		}
+		for _, cfg := range cfgs {
+			d := "l"
+			if cfg.o&patterns.OptRTL != 0 {
+				d = "r"
+			}
+			if !strings.Contains(ls.dir, d) {
+				continue
+			}
+			all := unitsFor(prop, harness, patterns.FromText(ls.pat, 0, "shape:limits"), cfg.o, cfg.co, 60, map[string]string{"fixstart": "1"}, needAST)
+			for k, n := range ls.ns {
+				if k > 0 && tier != "thorough" {
+					break
+				}
+				if n < len(all) {
+					u := all[n]
+					u.PathBudget = 60000
+					u.StepBudget = 40_000_000
+					us = append(us, u)
+				}
+			}
+		}
+	}
+	return us
+}
+
 func sortedPats(ps []patterns.Pat) []patterns.Pat {
 	sort.SliceStable(ps, func(i, j int) bool { return ps[i].Text < ps[j].Text })
 	return ps
@@ -150,6 +204,11 @@ func buildSpecUnits(prop string, rtl bool) func(tier string, seed int) []Unit {
 				// the systematic products are large: plain options and one rune less in the quick tier
 				sets = []int{0}
 				mn = maxN - 1
+				if p.Source == "shape:altprefix" && !rtl {
+					// two branches with a common head of two items: a wrong factoring needs the head,
+					// one extra repetition and the tail = four runes to show
+					mn = maxN
+				}
 			}
 			for _, o := range sets {
 				if rtl {
@@ -225,6 +284,10 @@ func init() {
 					us = append(us, unitsFor("C03", "accel", p, cfg.o, cfg.co, mn, nil, false)...)
 				}
 			}
+			us = append(us, limitUnits(tier, "C03", "accel", []struct {
+				o  int
+				co string
+			}{{0, ""}, {0, "g"}, {patterns.OptRTL, ""}}, false)...)
 			return us
 		},
 		Rule:      "For each (pattern, options, code-gen flag, n): n symbolic runes, symbolic start offset; every feasible path of the real find call and of a naive scan of the same compiled program (no candidate finder, no prefix filter, no length cut-off, bump by one) is explored and their snapshots are asserted equal.",
@@ -365,6 +428,15 @@ func init() {
 					us = append(us, unitsFor("C05", "rewrite", p, o, "", maxN, nil, false)...)
 				}
 			}
+			// a leading capture whose body starts with a loop, referenced later: whether the scan may skip the
+			// start positions inside the loop's run shows only when the attempt at the start of the run fails on
+			// the reference and one inside the run succeeds (five runes: a a b a b)
+			for _, t := range []string{`(a*b)\1`, `(\w*b)\1`, `(a*b)c\1`, `(a+b)\1`, `(?<x>a*b)\k<x>`, `(a*)b\1`, `(?:(a*b))\1`, `(a*b)(?(1)\1|c)`, `(a*?b)\1`, `(?>(a*b))\1`, `(a*b)+\1`} {
+				for _, o := range []int{0, patterns.OptRTL} {
+					all := unitsFor("C05", "rewrite", patterns.FromText(t, 0, "shape:captureloop"), o, "", maxN+1, nil, false)
+					us = append(us, all[len(all)-1])
+				}
+			}
 			return us
 		},
 		Rule:      "For each (pattern, options, n): the pattern is compiled twice inside the interpreter, once as is and once with the rewrite passes (auto-atomic loops, ending-backtracking removal, final optimisation incl. bump-along, alternation prefix factoring and branch reordering) intercepted; n symbolic runes and a symbolic start offset; every feasible path of a scan of both programs is explored and the snapshots asserted equal. Units whose two programs are identical are counted as trivial.",
@@ -417,6 +489,21 @@ func init() {
 						params := map[string]string{"pattern": p.Text, "options": itoa(o), "copts": "", "n": itoa(n), "lmax": "40", "ldom": "0-40", "l2dom": "1-44,100000", "key_extra": "deep", "textdom": "a-e"}
 						us = append(us, Unit{ID: fmt.Sprintf("C13/deep/%s/o%d/n%d", p.Text, o, n), Harness: "limit", PathBudget: 60000, Params: params})
 					}
+				}
+			}
+			// growth of the stack past its initial size: a concrete run of 10 / 20 runes in front of two symbolic
+			// ones, the limit anywhere between the initial size and several doublings (so that the last growth
+			// step is clipped to the limit on some paths and is a clean doubling on others)
+			for _, g := range []struct{ pat, pad string }{{`(?:ab?)*d|\w+`, "aaaaaaaaaa"}, {`(a)*b|(a)*c`, "aaaaaaaaaaaaaaaaaaaa"}, {`^(?:(\w)*\d|.*c)$`, "aaaaaaaaaa"}, {`(a|b)*c`, "ababababab"},
+				{`(?:a|b|c|d)*e`, "abcdabcdabcdabcd"}, {`((a)|(b))*c`, "abababab"}, {`(?:a*a*)*b`, "aaaaaa"}, {`(?<=(\w)*\d|a*)c`, "aaaaaaaaaa"}} {
+				for _, o := range []int{0, patterns.OptRTL} {
+					if o != 0 && tier != "thorough" && len(g.pad) > 10 {
+						continue
+					}
+					pad := g.pad
+					params := map[string]string{"pattern": g.pat, "options": itoa(o), "copts": "", "n": "2", "lmax": "1100", "ldom": "63-66,100,127-129,200,256,1000", "l2dom": "101,130,100000",
+						"key_extra": "grow", "textdom": "a-e", "pad": pad, "lconcrete": "1"}
+					us = append(us, Unit{ID: fmt.Sprintf("C13/grow/%s/o%d", g.pat, o), Harness: "limit", PathBudget: 60000, StepBudget: 40_000_000, Params: params})
 				}
 			}
 			return us
@@ -565,6 +652,10 @@ func init() {
 					us = append(us, unitsFor("C04", "facts", p, cfg.o, cfg.co, maxN, nil, false)...)
 				}
 			}
+			us = append(us, limitUnits(tier, "C04", "facts", []struct {
+				o  int
+				co string
+			}{{0, ""}, {0, "g"}, {patterns.OptRTL, ""}}, false)...)
 			return us
 		},
 		Rule:      "For each (pattern, options, code-gen flag, n): n symbolic runes; the compiled program is attempted at every position p (single-position attempt, no scanning); on every feasible path with a match at p every published fact (MinRequiredLength as remaining-length bound, MaxPossibleLength, leading/trailing anchor, LeadingPrefix(es), FixedDistanceSets/Char/String, LiteralAfterLoop, landmark chain as a necessary condition, FcPrefix, BmPrefix, Anchors bits) is asserted at p.",
@@ -885,9 +976,17 @@ func init() {
 				mx = map[string]int{"s": 4, "b": 4}
 				ps = dedup(append(ps, enumPats("quick", seed)...))
 			}
-			return stringUnits("C02", "entry", ps, cfgs, []string{"s", "b"}, mx, nil, func(i, k int) bool {
+			us := stringUnits("C02", "entry", ps, cfgs, []string{"s", "b"}, mx, nil, func(i, k int) bool {
 				return tier == "thorough" || k == 0 || (i+seed)%6 == k-1
 			})
+			// multi-literal prefix filters exist only with the code-generator analysis: alternations whose
+			// branches contain each other, start with the same / different bytes, or are non-ASCII
+			var cg []patterns.Pat
+			for _, t := range []string{`bc|abc`, `ab|cab`, `b|ab`, `ab|cd`, `abc|abd|xyz`, `aa|ab|ba`, `(?:bc|abc)\b`, `é|aé`, `ab|b|a`, `(?i)bc|abc`, `bc|abc|c`, `ab|abc`} {
+				cg = append(cg, patterns.FromText(t, 0, "shape:entry-codegen"))
+			}
+			us = append(us, stringUnits("C02", "entry", cg, cfgs[1:2], []string{"s", "b"}, mx, nil, nil)...)
+			return us
 		},
 		Rule:      "For each (pattern, options, compile options, n): the subject is a string of n symbolic Unicode scalars (mode s) or n raw symbolic bytes incl. invalid UTF-8 (mode b); every feasible path through MatchString, MatchRunes, FindStringMatch, FindRunesMatch, the StartingAt variants, FindNextMatch iteration, FindAllRunesIndex, FindAllStringIndex (rune->byte mapping recomputed by the harness), ReplaceFunc's match enumeration and Split's piece count is explored and their agreement asserted.",
 		Witnesses: []string{"match", "nomatch", "end"},
@@ -905,9 +1004,26 @@ func init() {
 				mx = map[string]int{"s": 4, "b": 5}
 				ps = dedup(append(ps, enumPats("quick", seed)...))
 			}
-			return stringUnits("C08", "wellformed", ps, cfgs[:4], []string{"s", "b"}, mx, nil, func(i, k int) bool {
+			us := stringUnits("C08", "wellformed", ps, cfgs[:4], []string{"s", "b"}, mx, nil, func(i, k int) bool {
 				return tier == "thorough" || k == 0 || (i+seed)%3 == k-1
 			})
+			// capture stacks with pushes, pops and re-pushes (balancing groups, captures inside loops and
+			// look-behind): the bookkeeping shows only on subjects with several sibling pairs, so these run on
+			// longer subjects over a two/three-letter alphabet (every byte still a solver variable)
+			deepN := []int{4, 5, 6}
+			if tier == "thorough" {
+				deepN = []int{4, 5, 6, 7, 8}
+			}
+			for _, t := range []string{`(?:(?<o>a)|(?<-o>b))+(?(o)(?!))`, `^(?:(?<o>a)|(?<x-o>b)|c)*(?(o)(?!))$`, `(?:(?<o>a)|(?<x-o>b))+\k<x>?`, `(?:(?<o>a)+(?<x-o>b)+)+(?<-x>c)?`,
+				`(?:(?<o>a)|(?<-o>b))+\k<o>`, `((a)|(b))*c`, `(?:(a)|b)*(?<=(b)a*)`, `(?<o>a)+(?<-o>b)+(?(o)(?!))`, `(?:(?<o>a)(?<p>b)?|(?<q-o>c))+`, `(?:(?<o>a)|(?<y-o>(?<z-o>b)))+`} {
+				for _, o := range []int{0, patterns.OptRTL} {
+					for _, n := range deepN {
+						us = append(us, Unit{ID: fmt.Sprintf("C08/deep/%s/o%d/n%d", t, o, n), Harness: "wellformed", PathBudget: 60000,
+							Params: map[string]string{"pattern": t, "options": itoa(o), "copts": "", "n": itoa(n), "mode": "s", "alphabet": "abc", "key_extra": "deep"}})
+					}
+				}
+			}
+			return us
 		},
 		Rule:      "For each (pattern, options, n): subject = n symbolic scalars or n raw symbolic bytes; all matches are enumerated on every feasible path; every capture of every group lies inside the input, group 0 has one capture equal to the match, the embedded capture is the last capture, String()/Runes() equal the addressed slice, ByteRange() equals the UTF-8 byte span recomputed by the harness from the decode widths (each invalid byte one rune).",
 		Witnesses: []string{"match", "group-with-capture", "end"},
